@@ -24,7 +24,9 @@ FUNCTIONS = [(S, "StructuredRecord.is_valid"), (S, "StructuredRecord._match"), (
              (ASM, "AssemblyManager._generate_assembly"), (ASM, "AssemblyManager.assemble"), (VEC, "AbstractVector.assemble")] + [
              ("moclo/moclo/errors.py", q_) for q_ in (
                  "InvalidSequence.__init__", "InvalidSequence.__str__", "DuplicateModules.__init__", "DuplicateModules.__str__",
-                 "MissingModule.__init__", "MissingModule.__str__", "UnusedModules.__init__", "UnusedModules.__str__")]
+                 "MissingModule.__init__", "MissingModule.__str__", "UnusedModules.__init__", "UnusedModules.__str__")] + [
+             ("moclo/moclo/core/_utils.py", "cutter_check"), (MOD, "AbstractModule.__new__"), (VEC, "AbstractVector.__new__"),
+             ("moclo/moclo/core/parts.py", "AbstractPart.__new__")]
 ASSUMES = ["D-RE (re.match raises nothing on str input)", "D-RESTR (catalyse raises nothing on IUPAC text)", "D-SEQ", "D-CACHE",
            "D-REC-SLICE", "D-REC-ADD", "exceptions a dependency contract does not list are not possible by assumption",
            "citation passes assumed not to raise on well-formed citations (C10)"]
@@ -38,7 +40,7 @@ EXPLANATION = ("every exceptional exit the executor enumerates along the typing 
 
 def obligations(ctx):
     obs = ctx.verify(FUNCTIONS)
-    keep = [o for o in obs if "errors.py" in o.name or any(k in o.name for k in ("raises", "cover", "call-pre", "divisor", "true-iff", "inv_cache"))]
+    keep = [o for o in obs if "errors.py" in o.name or "__new__" in o.name or "cutter_check" in o.name or any(k in o.name for k in ("raises", "cover", "call-pre", "divisor", "true-iff", "inv_cache"))]
     errors_ok = ctx.part(error_taxonomy)
     from props._shared import typing_state_census
     return list(keep + errors_ok) + ctx.part(lambda c_: [typing_state_census(c_, 'C17')], 'typing-state census')
